@@ -78,7 +78,7 @@ from glue.core.component import (Component, CategoricalComponent,
                                  DerivedComponent, CoordinateComponent,
                                  ExtendedComponent)
 from glue.core.subset import (OPSYM, SYMOP, CompositeSubsetState,
-                              SubsetState, Subset, RoiSubsetState,
+                              SubsetState, Subset, RoiSubsetState, RoiSubsetStateNd,
                               InequalitySubsetState, RangeSubsetState)
 from glue.core import (VisualAttributes, ComponentLink, DataCollection)
 from glue.core.component_link import CoordinateComponentLink
@@ -703,6 +703,20 @@ def _load_roi_subset_state(rec, context):
                           context.object(rec['yatt']),
                           context.object(rec['roi']),
                           context.object(rec['pretransform'] if 'pretransform' in rec else None))
+
+
+@saver(RoiSubsetStateNd)
+def _save_roi_subset_state_nd(state, context):
+    return dict(atts=[context.id(att) for att in state.attributes],
+                roi=context.id(state.roi),
+                pretransform=context.id(state.pretransform))
+
+
+@loader(RoiSubsetStateNd)
+def _load_roi_subset_state_nd(rec, context):
+    return RoiSubsetStateNd([context.object(att) for att in rec['atts']],
+                            context.object(rec['roi']),
+                            context.object(rec['pretransform']))
 
 
 @saver(InequalitySubsetState)
